@@ -249,6 +249,9 @@ def emit(f):
               "task_system_self_send", "task_system_views_send", "task_system_res_send", "task_system_entry_send",
               "task_parsystem_self_send", "task_parsystem_views_send", "task_parsystem_res_send", "task_parsystem_entry_send",
               "clear_sets_length_first", "adopt_requires_no_allocation",
+              "remove_defers_drops", "remove_decrements_length_first", "remove_frees_identifier_first",
+              "clone_from_hides_rows_first", "clone_from_writes_back_on_unwind", "clone_from_identifier_column_written_back",
+              "world_clone_from_forgets_identifiers_first", "world_clone_from_clears_on_unwind",
               "entities_macro_evaluates_size_once", "entities_macro_unchecked_arms_known",
               "iter_fold_folds_current_first", "iter_next_drains_current_first",
               "alloc_get_checks_generation", "alloc_is_active_checks_generation", "resolution_sites_use_allocator",
@@ -405,6 +408,74 @@ def order_facts():
     f["adopt_requires_no_allocation"] = bool(re.search(
         r"iflength==0&&component_column\.1==0\{letmutv=ManuallyDrop::new\(self\.0\);\*component_column=\(v\.as_mut_ptr\(\)\.cast::<u8>\(\),v\.capacity\(\)\);\}else\{",
         bs[0]))
+    # --- removal (finding F8a): the row leaves every column, the shared length, the identifier column and the
+    # allocator before any component's Drop can run
+    st = read("src/registry/sealed/storage.rs")
+    bs = [norm(b) for q, n, b in fn_bodies(st) if n == "remove_component_row" and "swap_remove" in b]
+    if len(bs) != 1:
+        raise ParseFailure("registry/sealed/storage.rs: remove_component_row")
+    b = bs[0]
+    i_take = b.find("letremoved=v.swap_remove(index);")
+    i_some = b.find("Some(removed)}else{None};")
+    i_rec = b.find("R::remove_component_row(index,components,length,identifier_iter)")
+    i_drop = b.find("drop(removed);")
+    f["remove_defers_drops"] = (b.startswith("letremoved=if") or "letremoved=if" in b[:200]) and 0 <= i_take < i_some < i_rec < i_drop \
+        and b.count("swap_remove(") == 1
+    bs = [norm(b) for q, n, b in fn_bodies(src) if n == "remove_row_unchecked"]
+    if len(bs) != 1:
+        raise ParseFailure("archetype/mod.rs: remove_row_unchecked")
+    b = bs[0]
+    i_ids = b.find("entity_identifiers.swap_remove(index);")
+    i_len = b.find("letlength=self.length;self.length-=1;")
+    i_rem = b.find("R::remove_component_row(index,&self.components,length,self.identifier.iter())")
+    f["remove_decrements_length_first"] = 0 <= i_ids < i_len < i_rem and "R::remove_component_row(index,&self.components,self.length" not in b
+    w = read("src/world/mod.rs")
+    bs = [norm(b) for q, n, b in fn_bodies(w) if n == "remove" and "remove_row_unchecked" in b]
+    if len(bs) != 1:
+        raise ParseFailure("world/mod.rs: remove")
+    b = bs[0]
+    i_free = b.find("self.entity_allocator.free_unchecked(entity_identifier);")
+    i_wlen = b.find("self.len-=1;")
+    i_row = b.find(".remove_row_unchecked(location.index,&mutself.entity_allocator)")
+    f["remove_frees_identifier_first"] = 0 <= i_free < i_wlen < i_row
+    # --- clone_from (findings F8c, F11)
+    ac = read("src/archetype/impl_clone.rs")
+    bs = [norm(b) for q, n, b in fn_bodies(ac) if n == "clone_from"]
+    if len(bs) != 1:
+        raise ParseFailure("archetype/impl_clone.rs: clone_from")
+    b = bs[0]
+    i_hide = b.find("letlength=self.length;self.length=0;")
+    i_cols = b.find("R::clone_from_components(&mutself.components,length,&source.components,source.length,self.identifier.iter(),?)".replace(",?)", ",)"))
+    if i_cols < 0:
+        i_cols = b.find("R::clone_from_components(&mutself.components,length,&source.components,source.length,self.identifier.iter())")
+    i_set = b.find("self.length=source.length;")
+    f["clone_from_hides_rows_first"] = 0 <= i_hide < i_cols < i_set
+    f["clone_from_identifier_column_written_back"] = re.search(
+        r"\(\*entity_identifiers\)\.clone_from\(&\(\*source_entity_identifiers\)\);self\.entity_identifiers=\(entity_identifiers\.as_mut_ptr\(\),entity_identifiers\.capacity\(\),?\);",
+        b) is not None and b.find("self.entity_identifiers=(") < i_hide
+    rc = norm(strip_comments(read("src/registry/clone/sealed.rs")))
+    guard = "impl<C>DropforColumnVec<'_,C>{fndrop(&mutself){*self.column=(self.vec.as_mut_ptr().cast::<u8>(),self.vec.capacity());}}" in rc
+    site = re.search(r"letmutcomponent_vec_a=ColumnVec\{column:component_column_a,vec:vec_a,?\};", rc) is not None \
+        and "(*component_vec_a.vec).clone_from(&(*component_vec_b));drop(component_vec_a);" in rc \
+        and re.search(r"letvec_a=ManuallyDrop::new\(unsafe\{Vec::from_raw_parts\(component_column_a\.0\.cast::<C>\(\),length_a,component_column_a\.1,?\)\}\);", rc) is not None
+    f["clone_from_writes_back_on_unwind"] = guard and site
+    wc = norm(strip_comments(read("src/world/impl_clone.rs")))
+    bs = [norm(b) for q, n, b in fn_bodies(strip_comments(read("src/world/impl_clone.rs"))) if n == "clone_from"]
+    if len(bs) != 1:
+        raise ParseFailure("world/impl_clone.rs: clone_from")
+    b = bs[0]
+    i_fgt = b.find("self.entity_allocator.clear();self.len=0;")
+    i_grd = b.find("letarchetypes=ClearOnUnwind(&mutself.archetypes);")
+    i_cln = b.find("archetypes.0.clone_from(&source.archetypes)")
+    i_mf = b.find("mem::forget(archetypes);")
+    i_al = b.find("self.entity_allocator.clone_from(&source.entity_allocator,&identifier_map)")
+    f["world_clone_from_forgets_identifiers_first"] = 0 <= i_fgt < i_cln and "self.archetypes.clone_from(" not in b
+    f["world_clone_from_clears_on_unwind"] = 0 <= i_grd < i_cln < i_mf < i_al and \
+        re.search(r"DropforClearOnUnwind<'_,Registry>whereRegistry:registry::Registry,?\{fndrop\(&mutself\)\{forarchetypeinself\.0\.iter_mut\(\)\{archetype\.clear_detached\(\);\}\}\}", wc) is not None
+    al = read("src/entity/allocator/mod.rs")
+    bs = [norm(b) for q, n, b in fn_bodies(al) if n == "clear"]
+    f["world_clone_from_forgets_identifiers_first"] = f["world_clone_from_forgets_identifiers_first"] and \
+        len(bs) == 1 and bs[0].replace(" ", "") in ("self.slots.clear();self.free.clear();", "self.free.clear();self.slots.clear();")
     return f
 
 
